@@ -38,3 +38,18 @@ fn(R + "_do_commit", cls="RootTx", props=["C23", "C27"], returns="none",
    ensures=["not self.is_active", "self.connection._transaction is not self"],
    exc_ensures={"BaseException": ["implies(old(self.is_active), not self.is_active)"]},
    modifies=["self.is_active", "self.connection._transaction", "any._nested_transaction", "self.connection._nested_transaction.is_active"])
+
+# construction: a root transaction comes into being attached to its connection, or (BEGIN failed) not at all
+import pyvc.contract as _pc  # noqa: E402
+_pc.CLASSES["ConnT"].fields["_trans_context_manager"] = "v"
+_pc.CLASSES["RootTx"].methods["_connection_begin_impl"] = R + "_connection_begin_impl"
+fn(R + "_connection_begin_impl", abstract=True, cls="RootTx", params=["self"], returns="none", modifies=[], may_raise={"BaseException": "True"},
+   notes="Connection._begin_impl: emits BEGIN (dialect.do_begin); may raise")
+fn(R + "__init__", cls="RootTx", props=["C23", "C27"], returns="none", assume_rep=False,
+   types={"connection": "ConnT"}, callees={"TransactionalContext._trans_ctx_check": "noop"},
+   requires=["connection is not None", "connection._transaction is None"],
+   ensures=["self.connection is connection", "self.is_active", "connection._transaction is self"],
+   may_raise={"BaseException": "True"},
+   # a failing BEGIN leaves the connection without a transaction object
+   exc_ensures={"BaseException": ["connection._transaction is None"]},
+   modifies=["self.connection", "self.is_active", "connection._transaction"])
